@@ -41,6 +41,11 @@ let parse_op (s : string) : op =
   | ["rfi"; x] -> ORemoveFirstInstance (z_of_int (int_of_string x))
   | ["rli"; x] -> ORemoveLastInstance (z_of_int (int_of_string x))
   | ["rai"; x] -> ORemoveAllInstances (z_of_int (int_of_string x))
+  | ["so"; k; f; t] -> OSort (b k, n f, n t)
+  | ["it"; s; d] -> OIterate (n s, z_of_int (int_of_string d))
+  | ["rsd"] -> ORemoveSortedDups
+  | ["rd"] -> ORemoveDups
+  | ["isp"; x] -> OInsertSorted (z_of_int (int_of_string x))
   | _ -> failwith ("bad op " ^ s)
 
 (* two-queue cases: "b.<op>" = single-queue op on B, "<op>" on A; binary ops name [this] by 0 (A) / 1 (B) *)
@@ -65,6 +70,7 @@ let show_out = function
   | ONum n -> "n" ^ string_of_int (int_of_nat n)
   | OIdx None -> "i-1" | OIdx (Some i) -> "i" ^ string_of_int (int_of_nat i)
   | ONone -> "-"
+  | OList l -> "l" ^ String.concat "," (List.map (fun z -> string_of_int (int_of_z z)) l)
 
 let jk = z_of_int (-777)
 
